@@ -360,7 +360,7 @@ def _c14_runs(tier):
         rs.append(fsx(C(), ["--depth=5", "--starts=0,64", "--maxlive=4", "--setbits=22"], "host"))
         rs.append(fsx(C(thread_safe=1), ["--depth=5", "--starts=0,3", "--maxlive=4", "--setbits=22"], "thread-safe"))
     else:
-        rs.append(fsx(C(defs=("M4RI_VERIF_MMC_NBLOCKS=2", "M4RI_VERIF_MZD_T_CACHE_MAX=3"), **MIN), ["--depth=5", "--starts=0,63,127,128,130", "--maxlive=3", "--setbits=22"], "scaled-N2"))
+        rs.append(fsx(C(defs=("M4RI_VERIF_MMC_NBLOCKS=2", "M4RI_VERIF_MZD_T_CACHE_MAX=3"), **MIN), ["--depth=5", "--starts=0,63,127,128,130,191,192", "--maxlive=3", "--setbits=23"], "scaled-N2"))
         rs.append(fsx(C(defs=("M4RI_VERIF_MMC_NBLOCKS=3", "M4RI_VERIF_MZD_T_CACHE_MAX=2"), **MIN), ["--depth=5", "--starts=0,64,128", "--maxlive=4", "--setbits=22", "--scripted=0"], "scaled-N3"))
         rs.append(fsx(C(**MIN), ["--depth=3", "--starts=0,1024", "--maxlive=3", "--setbits=22"], "real-constants"))
         rs.append(fsx(C(thread_safe=1), ["--depth=4", "--starts=0,3", "--maxlive=3", "--setbits=22", "--scripted=0"], "thread-safe"))
